@@ -269,6 +269,40 @@ class Session:
                 self.model_cmds.append('run %s%s' % (ser(ast), kws))
                 r, ok, v = self.capture(lambda: w.run(ast, **kwv))
             return (r if not ok else 'ok ' + ser(v)), ok
+        if name == 'idem':
+            # passes applied once vs twice to every form, both versions evaluated on copies of this interpreter
+            import copy
+            from wal.passes import expand, optimize, resolve
+            self.model_ok = False
+            forms = cmd[1]
+            wa, wb = copy.deepcopy(w), copy.deepcopy(w)
+            bufa, bufb = io.StringIO(), io.StringIO()
+            for text in forms:
+                def passes(wx, e):
+                    ec = wx.eval_context
+                    return resolve(optimize(expand(ec, e, parent=ec.global_environment)), start=ec.global_environment.environment)
+                outcome = []
+                for wx, twice, buf in ((wa, False, bufa), (wb, True, bufb)):
+                    try:
+                        with contextlib.redirect_stdout(buf):
+                            e = passes(wx, read_wal_sexpr(text))
+                            if twice:
+                                e = passes(wx, e)
+                            shape = ser(e)
+                            v = wx.eval_context.eval(e) if e or e == 0 else None
+                        outcome.append(('ok', shape, ser(v)))
+                    except BaseException as ex:      # noqa: B902
+                        outcome.append(('err', classify(ex), ''))
+                if outcome[0] != outcome[1]:
+                    return 'ok DIFF form %s once=%s twice=%s' % (text, outcome[0], outcome[1]), True
+                if outcome[0][0] == 'err':
+                    break
+            def clean(t):
+                cut = t.find(BANNER)
+                return t[:cut] if cut >= 0 else t
+            if clean(bufa.getvalue()) != clean(bufb.getvalue()):
+                return 'ok DIFF output once=%r twice=%r' % (bufa.getvalue()[-200:], bufb.getvalue()[-200:]), True
+            return 'ok same', True
         if name == 'step':
             n, tid = cmd[1], cmd[2]
             self.model_cmds.append('step I%d %s' % (n, 'N' if tid is None else 'S' + hx(tid)))
